@@ -145,10 +145,15 @@ def run_case(i):
             return {"i": i, "skip": True}
     build = _CTX["asan"] if (_CTX.get("asan") and i % 9 == 0) else _CTX["plain"]
     env = {"OVNI_VERIF_HEAPBUF": "1"} if build.flavour == "asan" else {}
+    shortio = build.flavour == "plain" and i % 4 == 1
+    if shortio:
+        # the file system may transfer less than asked in one pwrite()
+        env = {"LD_PRELOAD": _CTX["shortio"], "SHORTIO_SEED": str(chk.case_seed(i) % 100000)}
     wd = os.path.join(chk.scratch, "c%d" % i)
     out = {"i": i, "skip": False, "viol": None, "scope": scope, "n": n, "need": need, "inconclusive": None,
            "events": sum(len(s[1]) for s in streams), "regions": sum(len(s[2]["regions"]) for s in streams),
-           "before_start": sum(1 for s in streams if s[2].get("before_start")), "fail_windows": 0}
+           "before_start": sum(1 for s in streams if s[2].get("before_start")), "fail_windows": 0,
+           "shortio": 1 if shortio else 0}
     try:
         def write_all():
             shutil.rmtree(wd, ignore_errors=True)
@@ -234,14 +239,16 @@ def run_case(i):
 def main(argv):
     chk = core.Check("C16", "exploration", argv)
     plain = chk.build("plain", ["ovnisort", "ovniemu"])
-    _CTX.update(chk=chk, plain=plain)
+    shim = os.path.join(chk.scratch, "shortio.so")
+    chk.cc(shim, [os.path.join(core.VERIF, "drivers", "shortio.c")], plain, extra=["-shared", "-fPIC", "-ldl"], san=[])
+    _CTX.update(chk=chk, plain=plain, shortio=shim)
     quick = chk.tier == "quick"
     if not quick:
         _CTX["asan"] = chk.build("asan", ["ovnisort"])
     cases = list(range(400 if quick else 12000))
     if chk.replay:
         cases = [json.load(open(chk.replay))["replay"]["case"]]
-    n = ok = fail = ev = reg = bs = fw = 0
+    n = ok = fail = ev = reg = bs = fw = sio = 0
     shapes = set()
     for o in core.pmap(run_case, cases, chunksize=2):
         if o.get("skip"):
@@ -249,7 +256,7 @@ def main(argv):
         if o["inconclusive"]:
             chk.note_inconclusive(o["inconclusive"]); continue
         n += 1
-        ev += o["events"]; reg += o["regions"]; bs += o["before_start"]; fw += o["fail_windows"]
+        ev += o["events"]; reg += o["regions"]; bs += o["before_start"]; fw += o["fail_windows"]; sio += o["shortio"]
         ok += 1 if o["scope"] == "ok" else 0
         fail += 1 if o["scope"] == "fail" else 0
         shapes.add((o["scope"], min(o["need"], 50) // 5, o["n"] >= 10 ** 6))
@@ -258,11 +265,12 @@ def main(argv):
     cov = {"evaluations": n, "distinct_nontrivial": len(shapes),
            "rule": "traces of 1-3 streams: sorted base of 5-1500 uniquely numbered events (marks, bursts, jumbo bursts, many "
                    "equal clocks) with 1-8 OU[ OU] regions of 0-20 events (sorted or not internally) whose place is up to "
-                   "2000 events back (now and then older than the first event of the stream); look-back -n from just above twice the needed depth (ring wraps) to 10^6; in-scope-"
+                   "2000 events back (now and then older than the first event of the stream); look-back -n from just above twice the needed depth (ring wraps) to 10^6; a quarter of the cases with an LD_PRELOAD shim that makes "
+                   "pwrite() transfer 1-64 bytes at a time; in-scope-"
                    "for-failure cases need more than 2n and are run with every look-back from 4 to just under half the depth. distinct_nontrivial = distinct (scope, depth class, default window) "
                    "shapes",
            "samples": [{"scope": "ok", "oracle": "decoded result == Python stable sort by clock of the original events"}],
-           "sorted_ok_cases": ok, "must_fail_cases": fail, "must_fail_runs": fw, "events": ev, "regions": reg,
+           "sorted_ok_cases": ok, "must_fail_cases": fail, "must_fail_runs": fw, "cases_under_short_pwrite": sio, "events": ev, "regions": reg,
            "streams_with_region_events_older_than_first_event": bs}
     return chk.finish(cov, assumptions=[
         "tie stability relies on glibc qsort being a merge sort; an unstable result would be reported as a finding",
